@@ -14,7 +14,7 @@ H("G-HEX-codec", "codec_unsigned_roundtrip_all_u64", HX, "ALL u64 values; unwind
 H("G-HEX-codec", "codec_signed_roundtrip_all_i64", HX, "ALL i64 values; unwind 12",
   "read(encode(n)) = (len, n); signed_size = lebsize = signed_len = bytes written; signed_bytes range")
 for _n in range(1, 12):
-    H("G-HEX-codec", "codec_reads_total_len%d" % _n, HX, "EVERY byte string of length %d; unwind 13" % _n,
+    H("G-HEX-codec", "codec_reads_total_len%d" % _n, HX + " C15", "EVERY byte string of length %d; unwind 13" % _n,
       "reads never panic / never shift >= 64; consume 1..=min(N,10) bytes; checked = unchecked; unsigned_len/signed_len agree with the "
       "full reads (Some(n) <=> read consumed n, except a 10-byte varint that overflows); canonical encodings re-encode to the same bytes",
       tier="quick" if _n in (1, 2, 3, 4, 10, 11) else "thorough")
@@ -30,12 +30,12 @@ for _t in ("u64", "i64", "u32", "usize", "nonzero_u32"):
       "try_unpack(pack(v)) = (bytes written, v); unchecked unpack and value_len agree")
 H("G-HEX-pack", "pack_roundtrip_option_u64", HX, "ALL Option<u64>; unwind 12", "Some packs like the bare value; None writes nothing")
 for _n in (1, 2, 5, 6):
-    H("G-HEX-pack", "pack_narrowing_total_len%d" % _n, HX, "EVERY byte string of length %d" % _n,
+    H("G-HEX-pack", "pack_narrowing_total_len%d" % _n, HX + " C15", "EVERY byte string of length %d" % _n,
       "u32 / NonZeroU32 / usize / i64 try_unpack succeed exactly when the wide read succeeds and the value is in range (no truncation, no zero)")
 for _n in (0, 1, 3):
     H("G-HEX-pack", "pack_roundtrip_bytes_len%d" % _n, HX, "every payload of %d bytes" % _n, "Vec<u8> pack -> try_unpack / unpack / value_len")
 for _n in (1, 2, 3, 4, 5):
-    H("G-HEX-pack", "pack_bytes_unpack_total_len%d" % _n, HX, "EVERY byte string of length %d" % _n,
+    H("G-HEX-pack", "pack_bytes_unpack_total_len%d" % _n, HX + " C15", "EVERY byte string of length %d" % _n,
       "Vec<u8>::try_unpack never reads past the input; value = declared bytes; value_len (also String's) agrees; unchecked unpack agrees on accepted input",
       tier="quick" if _n < 5 else "thorough")
 H("G-HEX-pack", "pack_roundtrip_string_char", HXS, "every Unicode scalar value (1..=4 UTF-8 bytes)", "String pack -> unchecked unpack returns the same bytes; packed payload valid UTF-8")
@@ -44,7 +44,7 @@ for _n in (1, 2, 3):
     H("G-HEX-pack", "pack_roundtrip_string_ascii_len%d" % _n, HXS, "every ASCII payload of %d bytes (ASCII only: the checked decoder's UTF-8 scan is the cost driver; width-independent)" % _n,
       "String pack -> try_unpack (checked) returns the same bytes")
 for _n in (1, 2, 3, 4, 5):
-    H("G-HEX-pack", "pack_string_unpack_total_len%d" % _n, HXS, "EVERY byte string of length %d (header + up to %d payload bytes)" % (_n, _n - 1),
+    H("G-HEX-pack", "pack_string_unpack_total_len%d" % _n, HXS + " C15", "EVERY byte string of length %d (header + up to %d payload bytes)" % (_n, _n - 1),
       "String::try_unpack never panics; Ok <=> header readable, declared bytes present and valid UTF-8 by an independent validator; "
       "the unchecked unpack (from_utf8_unchecked) then returns the same bytes", tier="quick" if _n < 5 else "thorough")
 
